@@ -53,8 +53,9 @@ CHECKS["C07"] = (
     "a 40-digit reference (tolerance 200*eps*(1+||Ah||)*scale, never tighter than 10x scipy.linalg.expm's "
     "own error); SSModel conversions are checked as inverse pairs, against exactly sampled responses and "
     "through the bilinear-transform identity.",
-    "Trusts mpmath.expm at 40 digits; known finding F11 (I2 in the Pade-13 branch for ill-conditioned A) "
-    "is excluded by signature and counted.", "3/C07")
+    "Trusts mpmath.expm at 40 digits and scipy.linalg.expm_cond for the condition number of the exponential; "
+    "known findings F11 (I2 in the Pade-13 branch for ill-conditioned A) and F40 (over-scaling on strongly "
+    "non-normal matrices with ||Ah|| > 50, bounded by 10x the tolerance) are excluded by signature and counted.", "3/C07")
 CHECKS["C01"] = (
     "Hypothesis-generated modal systems by damping regime (atoms on every coefficient-formula switch) in "
     "diagonal, non-proportionally damped and physically coupled forms; reference = 40-digit mpmath exact "
@@ -236,8 +237,9 @@ CHECKS["C10"] = (
     "its documented half-open bin; fdepsd outputs must satisfy the stated invariants (monotone cumulative "
     "counts, count[:,0] = total cycles from an independent response + rainflow, Amax <= SRS, G2 >= G1, "
     "di_sig = sum amp^b count, var_test^(b/2) di_test = di_sig, quadratic scaling).",
-    "numba is absent: the accelerated definition is executed un-jitted from source; known finding F7 "
-    "(default findap on signals with non-zero sub-tolerance steps) excluded by signature and counted.",
+    "numba is absent: the accelerated definition is executed un-jitted from source (F7, the former known finding "
+    "on signals with non-zero sub-tolerance steps, is repaired in /repo and that class is held to the full "
+    "predicates).",
     "3/C10")
 
 CHECKS["C11"] = (
